@@ -15,6 +15,7 @@ name: llist_map_set
 define: U_SET
 src: linked_list.c, objpair.c, obj.c
 tier: B
+native: self
 backend: cadical
 unwind: 8
 unwind_thorough: 12
@@ -26,6 +27,7 @@ name: llist_map_get
 define: U_GET
 src: linked_list.c, objpair.c, obj.c
 tier: B
+native: self
 backend: cadical
 unwind: 8
 unwind_thorough: 12
@@ -37,6 +39,7 @@ name: llist_map_remove
 define: U_REMOVE
 src: linked_list.c, objpair.c, obj.c
 tier: B
+native: self
 backend: cadical
 unwind: 8
 unwind_thorough: 12
@@ -48,6 +51,7 @@ name: llist_map_get_keys
 define: U_GET_KEYS
 src: linked_list.c, objpair.c, obj.c
 tier: B
+native: self
 backend: cadical
 unwind: 8
 unwind_thorough: 12
@@ -59,6 +63,7 @@ name: llist_map_get_pairs
 define: U_GET_PAIRS
 src: linked_list.c, objpair.c, obj.c
 tier: B
+native: self
 backend: cadical
 unwind: 8
 unwind_thorough: 12
@@ -70,6 +75,7 @@ name: llist_map_iterate
 define: U_ITERATE
 src: linked_list.c, objpair.c, obj.c
 tier: B
+native: self
 backend: cadical
 unwind: 8
 unwind_thorough: 12
@@ -92,10 +98,11 @@ funcs: spif_linked_list_iterator, spif_linked_list_iterator_has_next, spif_linke
 
 #define LT spif_linked_list_t
 #define IT spif_linked_list_item_t
-#define BUILD(self, m) VL_BUILD_MAP(self, LT, IT, SPIF_MAPCLASS_VAR(linked_list), VL_SL, m, vl_pick_len())
+#define BUILD(self, m) do { VL_INPUTS(vin, a); VL_BUILD_MAP(self, LT, IT, SPIF_MAPCLASS_VAR(linked_list), VL_SL, m, vin); } while (0)
 #define CHECK(self, m, OP) VL_CHECK_MAP(self, IT, VL_SL, m, OP)
 
 vl_map_t m;             /* ideal dictionary */
+vl_in_t vin;            /* the built container's inputs (VND: replayable natively) */
 int w_n, w_k, w_v;
 
 /* result of get_keys / get_values: a linked_list of fresh velem copies with the given keys */
@@ -120,7 +127,7 @@ void harness(void)
 {
     LT self;
     spif_obj_t key, val, got;
-    int k = nondet_int(), v = nondet_int(), p, i;
+    int k = (int) VND(int, k), v = (int) VND(int, v), p, i;
     spif_bool_t b;
 
     BUILD(self, m);
@@ -172,11 +179,11 @@ void harness(void)
 #endif
 #ifdef U_GET_KEYS
     {
-        spif_linked_list_t in = nondet_bool() ? (spif_linked_list_t) NULL : spif_linked_list_new();
+        spif_linked_list_t in = VND(bool, c1) ? (spif_linked_list_t) NULL : spif_linked_list_new();
         spif_linked_list_t out = (spif_linked_list_t) spif_linked_list_get_keys(self, (spif_list_t) in);
         __CPROVER_assert(out != NULL && (in == NULL || out == in), "llist map get_keys: returns the list passed in, or a new one");
         if (out != NULL) check_velem_list(out, m.k, m.len, self, 0);
-        in = nondet_bool() ? (spif_linked_list_t) NULL : spif_linked_list_new();
+        in = VND(bool, c2) ? (spif_linked_list_t) NULL : spif_linked_list_new();
         out = (spif_linked_list_t) spif_linked_list_get_values(self, (spif_list_t) in);
         __CPROVER_assert(out != NULL && (in == NULL || out == in), "llist map get_values: returns the list passed in, or a new one");
         if (out != NULL) check_velem_list(out, m.v, m.len, self, 1);
@@ -185,7 +192,7 @@ void harness(void)
 #endif
 #ifdef U_GET_PAIRS
     {
-        spif_linked_list_t in = nondet_bool() ? (spif_linked_list_t) NULL : spif_linked_list_new();
+        spif_linked_list_t in = VND(bool, c3) ? (spif_linked_list_t) NULL : spif_linked_list_new();
         spif_linked_list_t out = (spif_linked_list_t) spif_linked_list_get_pairs(self, (spif_list_t) in);
         spif_linked_list_item_t c, mc;
         __CPROVER_assert(out != NULL && (in == NULL || out == in), "llist map get_pairs: returns the list passed in, or a new one");
